@@ -124,7 +124,7 @@ def report_violations(results, seed, tier, do_minimise=True, max_keys=8, max_rep
             rejs[sv['name']] += 1
             first.setdefault(sv['name'], (r, sv))
     for name in sorted(rejs):
-        if calls[name] >= 20 and rejs[name] == calls[name]:
+        if calls[name] >= 20 and rejs[name] == calls[name] and not name.endswith('#bad'):
             r, sv = first[name]
             if 'plan' not in r:
                 r = _one((seed, r['engine'], r['idx'], 'plan'))
